@@ -3,8 +3,9 @@ import copy
 
 from simkit import plan as P, tlv, universe as U, world as W
 
-CODEC_CHOICES = ['ber', 'ber', 'ber-indef', 'ber-indef', 'ber-chunk:1', 'ber-chunk:2', 'ber-chunk:3',
-                 'ber-chunk:7', 'ber-indef-chunk:3', 'ber-indef-chunk:1000', 'cer', 'cer', 'der', 'der']
+CODEC_CHOICES = ['ber', 'ber', 'ber', 'ber-indef', 'ber-indef', 'ber-indef', 'ber-chunk:1', 'ber-chunk:2', 'ber-chunk:3',
+                 'ber-chunk:7', 'ber-chunk:150', 'ber-chunk:1000', 'ber-indef-chunk:3', 'ber-indef-chunk:150',
+                 'ber-indef-chunk:1000', 'cer', 'cer', 'cer', 'der', 'der', 'der']
 
 
 def decoder_for(codec):
@@ -44,7 +45,11 @@ def gen_stream_workload(r, max_values=4, small=False, force_codec=None, allow_f2
         cfg.allow_exp_prim = allow_f2
     desc = U.gen_desc(r, cfg)
     nv = r.randrange(1, max_values + 1)
-    vc = U.ValCfg(small=small, big_strings=(not small and r.random() < 0.08))
+    big = (not small and r.random() < 0.08)
+    if codec.endswith(':150') or codec.endswith(':1000'):
+        big = r.random() < 0.6       # fragments with long-form lengths need strings beyond the chunk size
+        small = small and not big
+    vc = U.ValCfg(small=small, big_strings=big)
     values = [U.gen_value(r, desc, vc) for _ in range(nv)]
     use_spec = True
     if not U.has_implicit(desc) and not U.has_open(desc) and r.random() < 0.25:
